@@ -99,8 +99,12 @@ static std::string guess_filepath(const Patch& patch, const Options& options)
     if (patch.index_file_path != "/dev/null" && filesystem::exists(patch.index_file_path))
         return patch.index_file_path;
 
-    if (is_adding_file(patch, options))
-        return options.reverse_patch ? patch.old_file_path : patch.new_file_path;
+    if (is_adding_file(patch, options)) {
+        // NOTE: a damaged header may leave /dev/null as the only name, which is never the file to patch.
+        const auto& path = options.reverse_patch ? patch.old_file_path : patch.new_file_path;
+        if (path != "/dev/null")
+            return path;
+    }
 
     return {};
 }
